@@ -329,8 +329,12 @@ class IncludeIpsNode(NodeProtocol):
             if ips_file.read(5) != b"PATCH":
                 raise RuntimeError(f'{self.ips_file_path} is missing "PATCH" header')
 
-            while ips_file.peek(3)[:3] != b"EOF":
-                block_addr_bytes = struct.unpack(">BH", ips_file.read(3))
+            while True:
+                # read (not peek) the next 3 bytes: peek() may return fewer bytes at an I/O buffer boundary.
+                record_header = ips_file.read(3)
+                if record_header == b"EOF":
+                    break
+                block_addr_bytes = struct.unpack(">BH", record_header)
                 block_addr = (block_addr_bytes[0] << 16) | block_addr_bytes[1]
                 block_size_word = struct.unpack(">H", ips_file.read(2))
                 block_size = block_size_word[0]
